@@ -17,8 +17,8 @@ Abstractions: paths are numbers (rank of the path string), a glob pattern is its
 bit plus the list of paths it would match if they existed (the expander is an oracle),
 the name hashed with a source is its path relative to the task directory (`nameOf`),
 `status:` commands are `test -f p`, a command writes fixed files and may fail / be the
-point where the process is killed as chosen by `Env`, the hash `H` is uninterpreted
-(a parameter), time is a logical clock supplied by `Env.now`.
+point where the process is killed as chosen by `Env`, the hashes `H` (of the byte stream, and of
+its length table) are uninterpreted (a parameter), time is a logical clock supplied by `Env.now`.
 
 `Cfg` selects, for the three places where the property (C12) demands something else than
 the snapshot `ee97f41` does and the repair is a one-line patch, which behaviour is
@@ -122,7 +122,31 @@ def stateKey (n : Bytes) : Bytes := if normalize n = n then n else normalize n +
 /-- the rule before fix N: `normalizeFilename` alone (used only to state the old-rule collision) -/
 def oldKey (n : Bytes) : Bytes := normalize n
 
-def sumKey (t : Task) : Bytes := stateKey t.displayName
+/-- `%d`: the decimal digits of `n`, most significant first (fuel `f`; enough whenever `n < f`) -/
+def decF : Nat → Nat → Bytes
+  | 0, _ => []
+  | f + 1, n => if n < 10 then [48 + n] else decF f (n / 10) ++ [48 + n % 10]
+
+def dec (n : Nat) : Bytes := decF (n + 1) n
+
+/-- the string whose hash tags the checksum file of a LABELLED task (fix F8A):
+`fmt.Sprintf("%d:%s%s", len(t.Task), t.Task, t.Label)` — the length-prefixed pair, an injective
+encoding of (task name, label): `pairEnc_inj` (KeyLemmas). -/
+def pairEnc (name label : Bytes) : Bytes := dec name.length ++ 58 :: (name ++ label)
+
+/-- `checksumFilename` (fix F8A): the state of method checksum belongs to the PAIR (task name,
+label).  A task without label keeps `stateFilename(t.Task)`; a labelled one gets the normalised
+label, a `.` (46 — a character `stateFilename` never produces) and a TAG of the pair.  In the code
+the tag is 16 hex digits of `xxh3.HashString(pairEnc)`; the model's tag is `pairEnc` itself — the
+64-bit hash IDEALISED AS INJECTIVE, exactly as in `stateKey`.  `sumKey_inj` (KeyLemmas): equal keys ⇒
+equal task names and equal labels.  Before the fix the key was `stateKey t.displayName`
+(`oldSumKey`), shared by tasks with equal labels. -/
+def sumKey (t : Task) : Bytes :=
+  if t.label = [] then stateKey t.name else normalize t.label ++ 46 :: pairEnc t.name t.label
+
+/-- the rule before fix F8A: `stateFilename(t.Name())` (used only to state the old-rule collision) -/
+def oldSumKey (t : Task) : Bytes := stateKey t.displayName
+
 def tsKey (t : Task) : Bytes := stateKey t.name
 
 /-! ### sources, stream -/
@@ -158,14 +182,45 @@ def mtimeOf (fs : FS) (p : Path) : Nat :=
   | some f => f.mtime
   | none => 0
 
-/-- the bytes fed to the hash: for every source in order, its name (`nm`) then its content,
-back to back (no delimiter) -/
+/-- the two hash functions of `ChecksumChecker.checksum` (fix F8B), both uninterpreted:
+`outer` = xxh3-128 of the byte stream (names and contents back to back), printed `%x%x`;
+`lens` = xxh3-64 of the LENGTH TABLE (the length of every name and of every content, 8 bytes
+each), printed `%016x`.  The stored checksum is the two printed one after the other.  Theorems
+state what they need of them as the explicit hypothesis `FpInj` for the two fingerprints involved. -/
+structure Hashes where
+  outer : Bytes → Bytes
+  lens : Bytes → Bytes
+
+/-- the hashes the `decide`d examples and the driver run with: the stored checksum is the stream
+followed by the length table (the harness maps the real xxh3 values back to them) -/
+def hId : Hashes := ⟨id, id⟩
+
+/-- the bytes fed to the OUTER hash: for every source in order, its name (`nm`) then its content,
+back to back.  On its own NOT an injective encoding (file `ab` holding `c` and file `a` holding `bc`
+give the same bytes: `C05_counterexample_undelimited_historical`); together with `lenTable` it is
+(`stream_lenTable_inj`, StreamLemmas). -/
 def stream (nm : Path → Bytes) (fs : FS) : List Path → Bytes
   | [] => []
   | p :: l => nm p ++ contentOf fs p ++ stream nm fs l
 
-def fpNow (H : Bytes → Bytes) (pr : Proj) (t : Task) (fs : FS) : Bytes :=
-  H (stream (nameOf pr t) fs (srcsNow t fs))
+/-- what `binary.Write(…, binary.BigEndian, uint64)` writes: 8 bytes, most significant first.  (The first entry is `n / 2^56`
+without `% 256`: it IS the top byte for every `n < 2^64`, i.e. for every length the code can
+produce, and keeps `be64` injective on all of `Nat` without a side condition.) -/
+def be64 (n : Nat) : Bytes :=
+  [n / 72057594037927936, n / 281474976710656 % 256, n / 1099511627776 % 256, n / 4294967296 % 256,
+   n / 16777216 % 256, n / 65536 % 256, n / 256 % 256, n % 256]
+
+/-- the bytes fed to the LENS hash (fix F8B): for every source in order, the length of its name and
+the length of its content, 8 bytes each — they say where every name and every content ends in
+`stream` -/
+def lenTable (nm : Path → Bytes) (fs : FS) : List Path → Bytes
+  | [] => []
+  | p :: l => be64 (nm p).length ++ be64 (contentOf fs p).length ++ lenTable nm fs l
+
+/-- the checksum: `%x%x` of the outer hash of the stream, then `%016x` of the hash of the length
+table.  (Before fix F8B: the first half alone.) -/
+def fpNow (H : Hashes) (pr : Proj) (t : Task) (fs : FS) : Bytes :=
+  H.outer (stream (nameOf pr t) fs (srcsNow t fs)) ++ H.lens (lenTable (nameOf pr t) fs (srcsNow t fs))
 
 /-- every non-negated `generates` pattern matches something (ChecksumChecker) -/
 def gensOk (t : Task) (fs : FS) : Bool :=
@@ -177,7 +232,7 @@ def statusOk (t : Task) (fs : FS) : Bool := t.status.all (ahas fs)
 
 /-- `ChecksumChecker.IsUpToDate`: read old, compute new, WRITE (if not dry and different),
 generates check, compare. -/
-def sumCheck (H : Bytes → Bytes) (pr : Proj) (t : Task) (dry : Bool) (s : State) : State × Bool :=
+def sumCheck (H : Hashes) (pr : Proj) (t : Task) (dry : Bool) (s : State) : State × Bool :=
   let old := aget s.sums (sumKey t)
   let new := fpNow H pr t s.files
   let s1 := if dry then s else if old = some new then s else { s with sums := aset s.sums (sumKey t) new }
@@ -205,14 +260,14 @@ def tsCheck (t : Task) (dry : Bool) (now : Nat) (s : State) : State × Bool :=
     let up := !upd && ge
     if up then (s, true) else (touch, false)
 
-def srcCheck (H : Bytes → Bytes) (pr : Proj) (t : Task) (dry : Bool) (now : Nat) (s : State) : State × Bool :=
+def srcCheck (H : Hashes) (pr : Proj) (t : Task) (dry : Bool) (now : Nat) (s : State) : State × Bool :=
   match t.method with
   | .checksum => sumCheck H pr t dry s
   | .timestamp => tsCheck t dry now s
   | .none => (s, false)
 
 /-- `fingerprint.IsTaskUpToDate` -/
-def isUpToDate (H : Bytes → Bytes) (pr : Proj) (t : Task) (dry : Bool) (now : Nat) (s : State) : State × Bool :=
+def isUpToDate (H : Hashes) (pr : Proj) (t : Task) (dry : Bool) (now : Nat) (s : State) : State × Bool :=
   let stSet := !t.status.isEmpty
   let soSet := !t.sources.isEmpty
   let a := stSet && statusOk t s.files
@@ -277,7 +332,7 @@ terminal) goes through `statusOnError` before the task is reported cancelled (ne
 the prompt is skipped): the checksum the
 check has just recorded — or the timestamp marker it has just created/touched — is removed again
 (`onError`). -/
-def runBody (cfg : Cfg) (H : Bytes → Bytes) (pr : Proj) (i : Nat) (t : Task) (dry : Bool) (e : Env)
+def runBody (cfg : Cfg) (H : Hashes) (pr : Proj) (i : Nat) (t : Task) (dry : Bool) (e : Env)
     (s : State) : State × Obs :=
   if t.prompt && !dry && !e.yes then (onError t s, ⟨.cancelled, false, [], []⟩)
   else if dry then
@@ -298,13 +353,13 @@ def runBody (cfg : Cfg) (H : Bytes → Bytes) (pr : Proj) (i : Nat) (t : Task) (
     | .killed => (s2, ⟨.killed, false, r.2.1, []⟩)
 
 /-- `ToEditorOutput`: every task is checked (order = task order) -/
-def listJson (cfg : Cfg) (H : Bytes → Bytes) (pr : Proj) (now : Nat) : List Task → State → List Bool → State × List Bool
+def listJson (cfg : Cfg) (H : Hashes) (pr : Proj) (now : Nat) : List Task → State → List Bool → State × List Bool
   | [], s, acc => (s, acc)
   | t :: ts, s, acc =>
     let r := isUpToDate H pr t cfg.listDry now s
     listJson cfg H pr now ts r.1 (acc ++ [r.2])
 
-def invoke (cfg : Cfg) (H : Bytes → Bytes) (pr : Proj) (i : Nat) (m : Mode) (e : Env) (s : State) : State × Obs :=
+def invoke (cfg : Cfg) (H : Hashes) (pr : Proj) (i : Nat) (m : Mode) (e : Env) (s : State) : State × Obs :=
   match m with
   | .list => (s, Obs.quiet)
   | .summary => (s, Obs.quiet)
@@ -373,12 +428,12 @@ inductive Step
   | op (o : Op)
 deriving Repr, DecidableEq
 
-def step (cfg : Cfg) (H : Bytes → Bytes) (pr : Proj) : Step → State → State × Option Obs
+def step (cfg : Cfg) (H : Hashes) (pr : Proj) : Step → State → State × Option Obs
   | .inv i m e, s => let r := invoke cfg H pr i m e s; (r.1, some r.2)
   | .op o, s => (applyOp pr o s, none)
 
 /-- run a history; observations in order (`none` for file operations) -/
-def runHist (cfg : Cfg) (H : Bytes → Bytes) (pr : Proj) : List Step → State → State × List (Option Obs)
+def runHist (cfg : Cfg) (H : Hashes) (pr : Proj) : List Step → State → State × List (Option Obs)
   | [], s => (s, [])
   | st :: rest, s =>
     let r := step cfg H pr st s
@@ -398,7 +453,7 @@ def lastAtt (pred : Attempt → Bool) : List Attempt → Option Attempt
 /-- "the most recent attempt at `t`'s commands for the present fingerprint ran them all
 successfully, and the generates exist".  Present fingerprint: for `checksum` the hash of
 the stream; for `timestamp` "no source is newer than that attempt". -/
-def goodRun (H : Bytes → Bytes) (pr : Proj) (i : Nat) (t : Task) (s : State) : Bool :=
+def goodRun (H : Hashes) (pr : Proj) (i : Nat) (t : Task) (s : State) : Bool :=
   gensOk t s.files &&
   match t.method with
   | .checksum =>
